@@ -64,9 +64,14 @@ impl KeyMap {
         KeyMap { keys, by_value, value_of }
     }
     pub fn key(&self, value: &str) -> Ev {
-        let i = *self.by_value.get(value).unwrap_or_else(|| panic!("no key for value {:?} in the layout", value));
+        let i = self.find(value).unwrap_or_else(|| panic!("no key for value {:?} in the layout", value));
         Ev::Key(self.keys[i].0, self.keys[i].1)
     }
+    /// the key emitting `value`, or a canonically equivalent spelling of it (two-part signs and nukta letters decomposed)
+    fn find(&self, value: &str) -> Option<usize> {
+        self.by_value.get(value).copied().or_else(|| { let d = decompose(value); self.keys.iter().position(|(_, _, v)| decompose(v) == d) })
+    }
+    pub fn has(&self, value: &str) -> bool { self.find(value).is_some() }
     pub fn value(&self, ev: &Ev) -> Option<&str> {
         match ev {
             Ev::Key(k, m) => self.value_of.get(&(*k, m & 2 != 0)).map(String::as_str),
@@ -75,9 +80,26 @@ impl KeyMap {
     }
 }
 
+/// canonical decomposition of the Bengali characters that have one
+pub fn decompose(s: &str) -> String {
+    let mut o = String::new();
+    for c in s.chars() {
+        match c {
+            '\u{09CB}' => o.push_str("\u{09C7}\u{09BE}"),
+            '\u{09CC}' => o.push_str("\u{09C7}\u{09D7}"),
+            '\u{09DC}' => o.push_str("\u{09A1}\u{09BC}"),
+            '\u{09DD}' => o.push_str("\u{09A2}\u{09BC}"),
+            '\u{09DF}' => o.push_str("\u{09AF}\u{09BC}"),
+            c => o.push(c),
+        }
+    }
+    o
+}
+
 /// what `rv replay` needs to re-create the context of a fixed-composition case
-pub fn fx_initial(bits: u32) -> Value {
-    json!({"layout": SYNTHETIC, "database": false, "option_bits": bits & 31, "user_files": {}})
+pub fn fx_initial(bits: u32) -> Value { fx_initial_in(SYNTHETIC, bits) }
+pub fn fx_initial_in(layout: &str, bits: u32) -> Value {
+    json!({"layout": layout, "database": false, "option_bits": bits & 31, "user_files": {}})
 }
 
 pub fn opt_names(bits: u32) -> Value {
@@ -241,7 +263,7 @@ pub fn compare(w: &mut Worker, km: &KeyMap, bits: u32, evs: &[Ev], imp: &[(Strin
             if m.as_slice() != imp {
                 let at = (0..imp.len().min(m.len())).find(|&i| m[i] != imp[i]).unwrap_or(imp.len().min(m.len()));
                 rep.diff(json!({"what": format!("model and implementation differ ({} correspondence, fixed composition)", prop),
-                    "replay_kind": "session", "initial": fx_initial(bits), "layout_file": w.layout_path, "options": opt_names(bits), "events": describe(km, evs), "first_difference_at_event": at,
+                    "replay_kind": "session", "initial": fx_initial_in(&w.layout_path, bits), "layout_file": w.layout_path, "options": opt_names(bits), "events": describe(km, evs), "first_difference_at_event": at,
                     "implementation": imp.iter().map(|(t, o)| json!([t, o])).collect::<Vec<_>>(),
                     "model": m.iter().map(|(t, o)| json!([t, o])).collect::<Vec<_>>()}));
                 return false;
@@ -506,10 +528,21 @@ impl Syl {
 }
 
 pub fn c14(tier: &str, seed: u64, meta: &str) -> Report {
-    let su = setup(meta, SYNTHETIC);
+    // the synthetic layout has a key for every value of the inventory; the bundled Probhat layout is typed through
+    // its own keys with the part of the inventory it can type (no fola / conjunct keys)
+    let mut rep = c14_pass(tier, seed, meta, SYNTHETIC);
+    let r2 = c14_pass(tier, seed, meta, crate::ph::PROBHAT);
+    let rule = format!("{} || bundled Probhat layout: {}", rep.extra.get("rule").and_then(|v| v.as_str()).unwrap_or(""), r2.extra.get("rule").and_then(|v| v.as_str()).unwrap_or(""));
+    rep.merge(r2);
+    rep.extra.insert("rule".into(), json!(rule));
+    rep
+}
+
+fn c14_pass(tier: &str, seed: u64, meta: &str, layout: &'static str) -> Report {
+    let su = setup(meta, layout);
     let thorough = tier == "thorough";
     let km = &su.km;
-    let syl = syllables();
+    let syl: Vec<Syl> = syllables().into_iter().filter(|s| s.unicode().iter().chain(s.typewriter().iter()).all(|v| km.has(v))).collect();
     let ns = syl.len() as u64;
     // reduced inventory for the second/third syllable
     let small: Vec<usize> = (0..syl.len()).filter(|&i| {
@@ -521,10 +554,10 @@ pub fn c14(tier: &str, seed: u64, meta: &str) -> Report {
     let nsm = small.len() as u64;
     let n1 = ns;
     let n2 = ns * nsm;
-    let n3: u64 = if thorough { 400_000 } else { 30_000 };
+    let n3: u64 = if layout != SYNTHETIC { if thorough { 40_000 } else { 4_000 } } else if thorough { 400_000 } else { 30_000 };
     let per = n1 + n2 + n3;
     let total = 16 * per;
-    let mut rep = par_items(total, |_| Worker::new(SYNTHETIC), |w, i, rep| {
+    let mut rep = par_items(total, |_| Worker::new(layout), |w, i, rep| {
         let others = (i / per) as u32; // vowel, chandra, kar, old_reph
         let j = i % per;
         let word: Vec<&Syl> = if j < n1 { vec![&syl[j as usize]] }
@@ -548,7 +581,7 @@ pub fn c14(tier: &str, seed: u64, meta: &str) -> Report {
         let wordj = || json!(word.iter().map(|s| s.unicode().concat()).collect::<Vec<_>>());
         if tu != tt {
             rep.fail(json!({"what": "typewriter-order typing with old vowel-sign order on gave a different text than Unicode-order typing with it off",
-                "layout_file": SYNTHETIC, "other_options": opt_names(others), "syllables": wordj(),
+                "layout_file": layout, "other_options": opt_names(others), "syllables": wordj(),
                 "typewriter_events": describe(km, &typ), "unicode_events": describe(km, &uni), "typewriter_text": tt, "unicode_text": tu}));
         }
         if word.iter().any(|s| s.has_left_sign()) {
@@ -586,7 +619,7 @@ pub fn c14(tier: &str, seed: u64, meta: &str) -> Report {
                     else if got != want { Some("after discarding the waiting sign by backspace the rest of the word composes differently") }
                     else { None };
                 if let Some(what) = bad {
-                    rep.fail(json!({"what": what, "layout_file": SYNTHETIC, "other_options": opt_names(others), "events": describe(km, &h),
+                    rep.fail(json!({"what": what, "layout_file": layout, "other_options": opt_names(others), "events": describe(km, &h),
                         "observed": imp.iter().map(|(t, o)| json!([t, o])).collect::<Vec<_>>(), "expected_final_text": want}));
                 }
             }
